@@ -129,7 +129,7 @@ func runC20(c *Ctx) {
 	}
 	src.WriteString("}\n")
 	os.WriteFile(filepath.Join(dir, "main.go"), src.Bytes(), 0o644)
-	os.WriteFile(filepath.Join(dir, "go.mod"), []byte("module probe\n\ngo 1.21\n\nrequire github.com/tormoder/fit v0.0.0\n\nreplace github.com/tormoder/fit => /repo\n"), 0o644)
+	os.WriteFile(filepath.Join(dir, "go.mod"), []byte("module probe\n\ngo 1.21\n\nrequire github.com/tormoder/fit v0.0.0\n\nreplace github.com/tormoder/fit => "+repoDir+"\n"), 0o644)
 	os.WriteFile(filepath.Join(dir, "go.sum"), mustRead(filepath.Join(repoDir, "go.sum")), 0o644)
 	cmd := exec.Command("go", "run", ".")
 	cmd.Dir = dir
